@@ -119,3 +119,86 @@ Proof.
   intros Hf H1 H2 Hmtu.
   repeat match goal with H : context [if ?a <=? ?b then _ else _] |- _ => destruct (Z.leb_spec a b) end; lia.
 Qed.
+
+(* ---------- buildLowEntropyParams, lowEntropyEncodedPayloadLen, maxFragmentSize ----------
+   Results of type error are booleans in the translation (true = an error was returned); a struct of integers is
+   the tuple of its fields.  The model's [option] is [None] exactly where the source returns an error. *)
+
+Definition of_opt (o : option Z) : Z * bool := match o with Some v => (v, false) | None => (0, true) end.
+
+(* the source's mode table against Sizes.src_bytes: the same modes are valid, with the same source bytes per chunk *)
+Theorem xl_buildLowEntropyParams_eq_model mode :
+  match src_bytes mode with
+  | Some sb => exists w, xl_protocol_buildLowEntropyParams mode = ((sb, w), false)
+  | None => xl_protocol_buildLowEntropyParams mode = ((0, 0), true)
+  end.
+Proof.
+  unfold src_bytes, xl_protocol_buildLowEntropyParams, C14_Mode32, C14_Mode40, C14_Mode48, C14_Mode56,
+    C14_Src32, C14_Src40, C14_Src48, C14_Src56.
+  destruct (mode =? 1); [eexists; reflexivity|].
+  destruct (mode =? 2); [eexists; reflexivity|].
+  destruct (mode =? 3); [eexists; reflexivity|].
+  destruct (mode =? 4); [eexists; reflexivity|]. reflexivity.
+Qed.
+
+Lemma u16_cast x : go_cast (U 16) x = u16 x.
+Proof. reflexivity. Qed.
+
+(* low_entropy.go lowEntropyEncodedPayloadLen: never panics (the divisor is one of 4..7), errors where the model has
+   None, the same uint16 otherwise *)
+Theorem xl_lowEntropyEncodedPayloadLen_eq_model n mode : int_small n ->
+  xl_protocol_lowEntropyEncodedPayloadLen n mode = Some (of_opt (le_encoded_len n mode)).
+Proof.
+  intro Hn. unfold xl_protocol_lowEntropyEncodedPayloadLen, le_encoded_len.
+  pose proof (xl_buildLowEntropyParams_eq_model mode) as B.
+  destruct (src_bytes mode) as [sb|] eqn:Es.
+  - destruct B as [w ->]. pose proof (src_bytes_range _ _ Es) as Rs.
+    cbv beta iota zeta. cbn [Bool.eqb negb].
+    destruct (Z.leb_spec n 0) as [H0|H0]; [reflexivity|].
+    assert (E0 : (sb =? 0) = false) by (apply Z.eqb_neq; lia). rewrite E0. cbn [negb].
+    rewrite go_quo_I64, go_rem_I64 by (ranges; lia).
+    destruct (quot_bounds n sb ltac:(lia)) as [Q _]. specialize (Q ltac:(lia)).
+    rewrite if_negb.
+    assert (Ec : (if Z.rem n sb =? 0 then Z.quot n sb else go_add (I 64) (Z.quot n sb) 1)
+                 = Z.quot n sb + (if Z.rem n sb =? 0 then 0 else 1)).
+    { destruct (Z.rem n sb =? 0); [lia | apply go_add_I64; ranges; lia]. }
+    rewrite Ec. set (c := Z.quot n sb + _).
+    rewrite max_chunks_val, Z.gtb_ltb. unfold C14_lowEntropyChunkLen.
+    destruct (Z.ltb_spec 8191 c) as [Hc|Hc]; [reflexivity|].
+    assert (0 <= c) by (subst c; destruct (Z.rem n sb =? 0); lia).
+    rewrite go_mul_I64 by (ranges; lia). reflexivity.
+  - rewrite B. reflexivity.
+Qed.
+
+(* segment.go maxFragmentSize *)
+Theorem xl_maxFragmentSize_eq_model mtu t mode : int_small mtu ->
+  xl_protocol_maxFragmentSize mtu t mode = of_opt (max_fragment mtu t mode).
+Proof.
+  intro Hm. unfold xl_protocol_maxFragmentSize, max_fragment.
+  rewrite !xl_maxFragmentSizeInternal_eq_model by exact Hm. unfold C14_ModeOff.
+  destruct (mode =? 0); [reflexivity|].
+  pose proof (xl_buildLowEntropyParams_eq_model mode) as B.
+  destruct (src_bytes mode) as [sb|] eqn:Es.
+  - destruct B as [w ->]. pose proof (src_bytes_range _ _ Es) as Rs.
+    cbv beta iota zeta. cbn [Bool.eqb negb].
+    unfold is_stream, is_packet, C14_TransportStream, C14_TransportPacket.
+    destruct (t =? 1).
+    + rewrite xl_Min_int_eq_model, max_chunks_val, go_mul_I64 by (ranges; lia). reflexivity.
+    + destruct (t =? 2); [|reflexivity].
+      unfold C14_packetOverhead, C14_lowEntropyChunkLen.
+      rewrite go_sub_I64 by (ranges; lia). rewrite go_quo_I64 by (ranges; lia).
+      destruct (Z.leb_spec (Z.quot (mtu - 88) 8) 0) as [Hc|Hc]; [reflexivity|].
+      destruct (quot_bounds (mtu - 88) 8 ltac:(lia)) as [Q1 Q2].
+      assert (0 <= mtu - 88) by (destruct (Z_lt_le_dec (mtu - 88) 0); [specialize (Q2 ltac:(lia)); lia | lia]).
+      specialize (Q1 ltac:(lia)).
+      rewrite go_mul_I64 by (ranges; nia). reflexivity.
+  - rewrite B. reflexivity.
+Qed.
+
+Example ex_xl_fragment_sizes :
+  xl_protocol_maxFragmentSize 1400 C14_TransportPacket C14_Mode32 = (656, false) /\
+  xl_protocol_maxFragmentSize 90 C14_TransportPacket C14_Mode32 = (0, true) /\
+  xl_protocol_maxFragmentSize 1400 C14_TransportPacket 9 = (0, true) /\
+  xl_protocol_lowEntropyEncodedPayloadLen 32764 C14_Mode32 = Some (65528, false) /\
+  xl_protocol_lowEntropyEncodedPayloadLen 32768 C14_Mode32 = Some (0, true).
+Proof. repeat split; reflexivity. Qed.
